@@ -49,6 +49,9 @@ type c15Case struct {
 
 var kinds = []string{"tcp", "unix", "tcp+tls", "tcp+starttls", "ws", "wss", "udp", "dns"}
 
+// more of the same in the thorough tier: the remaining transport x security combinations
+var moreKinds = []string{"unix+tls", "unix+starttls", "ws+starttls", "udp+starttls", "dns+starttls"}
+
 // Stall points.
 const (
 	ptConnect   = "connect"             // transport connected, not one byte sent (dns: tunnel session allocated, never written to)
@@ -64,26 +67,37 @@ const (
 	ptUpHalf    = "upgraded-half-frame" // complete handshake, 5 of the 8 bytes of a valid smux frame header, silence
 )
 
-func pointsOf(kind string) []string {
-	common := []string{ptFirstLine, ptBetween, ptUpSilent, ptUpGarbage, ptUpHalf}
-	switch kind {
-	case "tcp", "unix":
-		return append([]string{ptConnect}, common...)
-	case "tcp+tls":
-		return append([]string{ptConnect, ptTLSHello}, common...)
-	case "tcp+starttls":
-		return append([]string{ptConnect, ptFirstLine, ptBetween, ptSTLS101, ptSTLSHello}, ptUpSilent, ptUpGarbage, ptUpHalf)
-	case "ws":
-		return append([]string{ptConnect, ptHTTPReq, ptWSOpen}, common...)
-	case "wss":
-		return append([]string{ptConnect, ptTLSHello, ptHTTPReq, ptWSOpen}, common...)
-	case "udp":
-		// a KCP session exists on the server only once its first datagram has arrived
-		return common
-	case "dns":
-		return append([]string{ptConnect}, common...)
+// baseOf splits an endpoint kind into transport and security ("", "tls" = TLS endpoint, "starttls").
+func baseOf(kind string) (base, sec string) {
+	parts := strings.SplitN(kind, "+", 2)
+	base = parts[0]
+	if len(parts) > 1 {
+		sec = parts[1]
 	}
-	return nil
+	if base == "wss" {
+		sec = "tls"
+	}
+	return
+}
+
+func pointsOf(kind string) []string {
+	base, sec := baseOf(kind)
+	var pts []string
+	if base != "udp" {
+		// (a KCP session exists on the server only once its first datagram has arrived)
+		pts = append(pts, ptConnect)
+	}
+	if sec == "tls" {
+		pts = append(pts, ptTLSHello)
+	}
+	if base == "ws" || base == "wss" {
+		pts = append(pts, ptHTTPReq, ptWSOpen)
+	}
+	pts = append(pts, ptFirstLine, ptBetween)
+	if sec == "starttls" {
+		pts = append(pts, ptSTLS101, ptSTLSHello)
+	}
+	return append(pts, ptUpSilent, ptUpGarbage, ptUpHalf)
 }
 
 var sizes = []int64{1, 2, 100, 4095, 4096, 4097, 32768, 65535, 65536}
@@ -188,7 +202,7 @@ func clientHello() []byte {
 }
 
 func rawDial(p *e2e.Pair, kind string) (net.Conn, error) {
-	if kind == "unix" {
+	if base, _ := baseOf(kind); base == "unix" {
 		return net.Dial("unix", hostOf(p))
 	}
 	return net.Dial("tcp", hostOf(p))
@@ -196,14 +210,18 @@ func rawDial(p *e2e.Pair, kind string) (net.Conn, error) {
 
 // carrier establishes the stream on which a client of this endpoint kind speaks the socketace handshake.
 func (b *badPeer) carrier(p *e2e.Pair, kind string) error {
-	switch kind {
-	case "tcp", "unix", "tcp+starttls":
+	base, sec := baseOf(kind)
+	if (base == "tcp" || base == "unix") && sec == "tls" {
+		base = "sock+tls"
+	}
+	switch base {
+	case "tcp", "unix":
 		c, err := rawDial(p, kind)
 		if err != nil {
 			return err
 		}
 		b.raw, b.conn = c, c
-	case "tcp+tls":
+	case "sock+tls":
 		c, err := rawDial(p, kind)
 		if err != nil {
 			return err
@@ -226,7 +244,7 @@ func (b *badPeer) carrier(p *e2e.Pair, kind string) error {
 			TLSClientConfig: &tls.Config{InsecureSkipVerify: true},
 		}
 		sch := "ws"
-		if kind == "wss" {
+		if base == "wss" {
 			sch = "wss"
 		}
 		c, _, err := d.Dial(sch+"://"+hostOf(p)+"/ws/all", nil)
@@ -321,7 +339,7 @@ func (b *badPeer) run(p *e2e.Pair, kind string, seed int64) error {
 	}
 	switch b.Point {
 	case ptConnect:
-		if kind == "dns" {
+		if base, _ := baseOf(kind); base == "dns" {
 			return b.carrier(p, kind)
 		}
 		c, err := rawDial(p, kind)
@@ -341,7 +359,7 @@ func (b *badPeer) run(p *e2e.Pair, kind string, seed int64) error {
 		}
 		b.raw = c
 		var w net.Conn = c
-		if kind == "wss" {
+		if base, _ := baseOf(kind); base == "wss" {
 			t := tls.Client(c, &tls.Config{InsecureSkipVerify: true})
 			if err := t.Handshake(); err != nil {
 				return fmt.Errorf("tls handshake: %v", err)
@@ -834,6 +852,9 @@ func TestVerifC15(t *testing.T) {
 		return
 	}
 	ks := kinds
+	if rec.Thorough() {
+		ks = append(append([]string(nil), kinds...), moreKinds...)
+	}
 	if v := os.Getenv("VERIF_KINDS"); v != "" {
 		ks = strings.Split(v, ",")
 	}
